@@ -285,7 +285,7 @@ fn run_case(id: &str, case: Case, rng: &mut Rng, stats: &mut Stats) -> String {
                 Ok(Value::Array(t)) => indices.iter().all(|i| t.select(i).is_equal(&a.select(i))),
                 _ => false,
             };
-            if agree { dump_array_at(a, &indices) } else { format!("{} entry-points-disagree", dump_array_at(a, &indices)) }
+            if agree { dump_array_at(a, &indices) } else { format!("(entry-points-disagree {})", dump_array_at(a, &indices)) }
         }
     };
     let idx_txt: String = indices.iter().map(|i| format!(" {}", bv_tok(i))).collect();
